@@ -21,12 +21,21 @@ def _module_of(path):
     return m.group(1) if m else None
 
 
-def _literal_from_arg(prog, b):
+def _literal_from_arg(prog, b, depth=0):
     """affine form (in 'id') of the integer turned into a Literal by arg_to_lit"""
     for s in b.calls():
         c = callee_of(s)
         if callee_matches(c, r"^core::convert::From::from$") and b.local_ty(s.node["dst"]["l"]).endswith("sat::sat_solver::Literal"):
             return eval_operand(prog, b, s.node["args"][0], {}), s
+    # through a local helper that builds the literal from the argument (`fn arg_to_solver_lit(arg) -> Literal`)
+    if depth < 3:
+        for s in b.calls():
+            c = callee_of(s)
+            t = prog.body_for_callee(c, b) if c and c.get("decl") != "<indirect>" else None
+            if t is not None and t.kind != "closure" and t.ret_ty.endswith("sat::sat_solver::Literal"):
+                v, s2 = _literal_from_arg(prog, t, depth + 1)
+                if v is not None:
+                    return v, s2
     return None, None
 
 
@@ -93,10 +102,9 @@ def rule_variable_layout(ctx):
         r.check(always_positive(T, None), name + "|T", "non-positive-var", "T(id) >= 1", "T(id) can be 0 or negative: not a SAT variable", a2l.loc())
         # D candidates: other (usize) -> usize functions of the module
         tfn = None
-        for s in a2l.calls():
-            t = prog.body_for_callee(callee_of(s), a2l)
-            if t is not None and t.ret_ty == "usize":
-                tfn = t
+        for y in prog.reachable_from([a2l], virtual_dispatch=False).values():
+            if y.kind != "closure" and y.ret_ty == "usize" and y.n_args == 1 and y.local_ty(1) == "usize" and y is not a2l:
+                tfn = y
         Ds = []
         for b in prog.lib_bodies():
             if b.kind == "closure" or _module_of(b.path) != mod or b is tfn:
@@ -430,6 +438,12 @@ REFERENCE = {
 }
 
 
+def place_ty_of(body, place):
+    from .satlayer import place_ty
+
+    return place_ty(body, place)
+
+
 def rule_clause_templates(ctx):
     prog = ctx.prog
     r = ctx.rule(
@@ -448,10 +462,9 @@ def rule_clause_templates(ctx):
         a2l = _method(prog, imp, "arg_to_lit")
         frv = _method(prog, imp, "first_range_var")
         Tpath = Rpath = None
-        for s in a2l.calls():
-            t = prog.body_for_callee(callee_of(s), a2l)
-            if t is not None and t.ret_ty == "usize":
-                Tpath = strip_generics(t.path)
+        for y in prog.reachable_from([a2l], virtual_dispatch=False).values():
+            if y.kind != "closure" and y.ret_ty == "usize" and y.n_args == 1 and y.local_ty(1) == "usize" and y is not a2l:
+                Tpath = strip_generics(y.path)
         if frv is not None and frv.exits():
             for s in frv.calls():
                 t = prog.body_for_callee(callee_of(s), frv)
@@ -462,34 +475,32 @@ def rule_clause_templates(ctx):
             mb = _method(prog, imp, mname)
             if mb is None or not mb.exits():
                 continue
-            # roots per mode: arms of a match on the encoder's own mode enum, if any
-            roots = []
-            inner = [t for _, t in prog.callees(mb, include_closures=False, virtual_dispatch=False) if t.path.startswith("encodings::") and (t.name or "") == mname]
-            disp = inner[0] if inner else mb
-            arms = None
-            for sw in switch_sites(disp):
-                subj = switch_subject(disp, sw)
-                if subj and subj[1] and "EncodingType" in disp.local_ty(subj[0]["l"]):
-                    from .cli import arm_regions
+            # modes: the arms of the match on the encoder's own mode enum, wherever it sits among the encoding functions
+            # reachable from the method; one arm is followed at a time (the blocks of the other arms are excluded)
+            from .cli import arm_regions
 
-                    adt_path = disp.local_ty(subj[0]["l"]).replace("&", "").strip()
-                    adt = prog.adt(adt_path)
-                    idx = {str(v["idx"]): v["name"] for v in adt["variants"]} if adt else {}
-                    arms = {}
-                    for val, (bb, blocks) in arm_regions(disp, sw).items():
-                        clos = []
-                        for x in {bb} | blocks:
-                            for st in disp.blocks[x]["stmts"]:
-                                if st["k"] == "assign" and st["rv"]["k"] == "aggregate" and st["rv"]["agg"].get("kind") == "closure":
-                                    cb = prog.lib(st["rv"]["agg"]["path"])
-                                    if cb is not None:
-                                        clos.append(cb)
-                        arms[idx.get(val, val)] = clos
-            if arms is None:
-                roots.append((None, [disp]))
+            roots = []
+            mode_sw = None
+            for y in sorted(prog.reachable_from([mb], virtual_dispatch=False).values(), key=lambda z: z.id):
+                if not (y.path.startswith("encodings::") or "<encodings::" in y.path.split(" as ")[0]):
+                    continue
+                for sw in switch_sites(y):
+                    subj = switch_subject(y, sw)
+                    if subj and subj[1] and "EncodingType" in place_ty_of(y, subj[0]):
+                        mode_sw = (y, sw, place_ty_of(y, subj[0]).replace("&", "").strip())
+            if mode_sw is None:
+                roots.append((None, {}))
             else:
-                for vname, clos in sorted(arms.items()):
-                    roots.append((vname, clos))
+                y, sw, adt_path = mode_sw
+                adt = prog.adt(adt_path)
+                idx = {str(v["idx"]): v["name"] for v in adt["variants"]} if adt else {}
+                regions = arm_regions(y, sw)
+                for val, (bb, blocks) in sorted(regions.items()):
+                    others = set()
+                    for v2, (bb2, blocks2) in regions.items():
+                        if v2 != val:
+                            others |= {bb2} | blocks2
+                    roots.append((idx.get(val, val), {y.id: others - ({bb} | blocks)}))
             for vname, rs in roots:
                 key = (fam, vname, with_range)
                 want = REFERENCE.get(key)
@@ -499,11 +510,13 @@ def rule_clause_templates(ctx):
                     continue
                 got = set()
                 where = {}
-                for root in rs:
-                    for t in cnf.templates(cx, root):
-                        k = _norm(t, Tpath, Rpath)
-                        got.add(k)
-                        where.setdefault(k, t)
+                cx.excluded = rs
+                cx.sum_cache = {}
+                for t in cnf.templates(cx, mb):
+                    k = _norm(t, Tpath, Rpath)
+                    got.add(k)
+                    where.setdefault(k, t)
+                cx.excluded = {}
                 n += 1
                 missing = sorted(want - got)
                 extra = sorted(got - want)
